@@ -311,10 +311,23 @@ def hSrsworProb : Handler := fun c => do
     ("binom", natJ (binomialCoefficient t t g)),
     ("support_times_prob", ratJ ((n : Rat) * srsworProb o t g))])
 
-def main : IO Unit := Proto.run [
+def handlers : List (String × Handler) := [
   ("c19.direct", hDirect), ("c19.is", hIS), ("c19.enumerate", hEnumerate), ("c19.imh", hIMH),
   ("c19.relax", hRelax), ("c19.srswor", hSrswor), ("c19.binom", hBinom),
   ("c19.enum_vocab", hEnumVocab), ("c19.enum_card", hEnumCard),
   ("c19.enum_card_tensor", hEnumCardTensor), ("c19.bern", hBern), ("c19.gumbel", hGumbel),
   ("c19.bern_nd", hBernNd), ("c19.gumbel_nd", hGumbelNd),
   ("c19.srswor_prob", hSrsworProb)]
+
+/-- `c19.multi`: {reqs: [{op, case}, ..]} -> {replies: [..]} — the elements of a proposal with a
+batch shape are independent one-variable problems: one model run per element. -/
+def hMulti : Handler := fun c => do
+  let reqs ← getList pure c "reqs"
+  let rs ← reqs.mapM fun r => do
+    let op ← getStr r "op"
+    match handlers.lookup op with
+    | some h => h (← field r "case")
+    | none => throw s!"c19.multi: unknown op {op}"
+  pure (objJ [("replies", Json.arr rs.toArray)])
+
+def main : IO Unit := Proto.run (("c19.multi", hMulti) :: handlers)
